@@ -10,7 +10,7 @@ From Coq Require Import List ZArith NArith Bool.
 From Coq.Strings Require Import Byte.
 From L4.gen Require Import Consts.
 From L4.model Require Import GoBase CodecBase CodecWinbox CodecRdp.
-From L4.proofs Require Import CodecRdpMatchProofs CodecWinboxProofs.
+From L4.proofs Require Import CodecRdpMatchProofs CodecWinboxProofs CodecWinboxStableProofs.
 Import ListNotations.
 Local Open Scope nat_scope.
 
@@ -24,7 +24,23 @@ Theorem C06_rdp_proper_prefix_asks_for_more : forall c w p s, w = p ++ s -> s <>
 Proof. exact rdp_prefix_more. Qed.
 
 (* ---- Winbox ---- *)
-(* proved for streams whose first chunk is not full (first length byte <> 255, i.e. user names up to 220
+(* every configuration, every stream (any number of chunks): a No is final, and so no prefix of a message that
+   matches is answered No.  The induction goes through FromBytes/FromChunks on the extended input: an accepted
+   message has the exact length its chunk headers announce, and if the first stride alone is a complete message
+   nothing longer parses (the key would be too long). *)
+Theorem C06_winbox_no_stable : forall c, no_stable (wb_match c).
+Proof. exact wb_no_stable. Qed.
+Theorem C06_winbox_yes_not_rejected_on_prefix : forall c, yes_not_rejected_on_prefix (wb_match c).
+Proof. exact wb_yes_not_rejected. Qed.
+(* the ingredients, also of interest for C18: no message is a proper prefix of a longer one *)
+Theorem C06_winbox_first_stride_excludes_longer : forall b m1, wb_stride < length b ->
+  auth_from_bytes (firstn wb_stride b) = Ok m1 -> forall m, auth_from_bytes b <> Ok m.
+Proof. exact first_stride_excludes_longer. Qed.
+Theorem C06_winbox_two_chunk_length : forall b m l2, auth_from_bytes b = Ok m -> wb_stride < length b <= 2 * wb_stride ->
+  nth_error b wb_stride = Some l2 -> length b = wb_stride + 2 + N.to_nat (bN l2).
+Proof. exact from_bytes_two_chunk_length. Qed.
+
+(* the special case proved first, kept: streams whose first chunk is not full (first length byte <> 255, i.e. user names up to 220
    bytes); for two-chunk messages the verdict chain is checked on every prefix by the engine (oracle
    C06:winbox:no-then-not-no) - what is missing here is the induction through FromBytes on the extended input *)
 Theorem C06_winbox_no_stable_partial : forall c p s, wb_first_len p <> wb_chunk_max -> wb_match c p = No -> wb_match c (p ++ s) = No.
@@ -51,6 +67,10 @@ Proof. vm_compute. repeat split. Qed.
 Print Assumptions C06_rdp_no_stable.
 Print Assumptions C06_rdp_yes_not_rejected_on_prefix.
 Print Assumptions C06_rdp_proper_prefix_asks_for_more.
+Print Assumptions C06_winbox_no_stable.
+Print Assumptions C06_winbox_yes_not_rejected_on_prefix.
+Print Assumptions C06_winbox_first_stride_excludes_longer.
+Print Assumptions C06_winbox_two_chunk_length.
 Print Assumptions C06_winbox_no_stable_partial.
 Print Assumptions C06_winbox_two_chunk_prefixes.
 Print Assumptions C06_rdp_nonvacuous.
